@@ -771,3 +771,79 @@ Example C16_frame_layout_nonvacuous :
   frame_chunk (mk_frame [1; 2; 3] (repeat 9 total_frame_size)) = [1; 2; 3] /\
   skipn 7 (mk_frame [1; 2; 3] (repeat 9 total_frame_size)) = repeat 9 1021.
 Proof. vm_compute. repeat split; reflexivity. Qed.
+
+(* ================================================================== a handshake frame may carry data
+   A wire-compatible peer need not size its Writes as the Go code does.  Its Writes [ws] from the
+   zero nonce spell  uvarint(len) ++ enc m ++ stream  in ANY split: message and first data in one
+   Write (one sealed frame), the message spread over several Writes with data behind it, any
+   further Writes.  The handshake's reader takes the message off the stream and not one byte
+   more; the data-phase Reads - however sized - return a prefix of exactly [stream], no Read
+   fails before the end of the wire, and when that is reached every byte of [stream] has been
+   returned: nothing is lost at the handshake / data boundary. *)
+Theorem C16_handshake_frame_may_carry_data :
+  forall (key cipher : Type) (seal : key -> bytes -> bytes -> cipher)
+         (open : key -> bytes -> cipher -> option bytes) (pool : bytes -> bytes)
+         (enc : authmsg -> bytes) (dec : bytes -> option authmsg) (k : key),
+  (forall n p : bytes, open k n (seal k n p) = Some p) ->
+  forall (m : authmsg) (ws : list bytes) (stream : bytes) (caps : list nat)
+         (st1 : rstate) (am : option authmsg) (conn1 : list (conn_ev cipher))
+         (rs : list rres) (st2 : rstate) (conn2 : list (conn_ev cipher)),
+  N.of_nat (length (enc m)) <= max_msg_size ->
+  concat ws = auth_wire_bytes enc m ++ stream ->
+  let W := run_writes key cipher seal pool k zero_nonce ws in
+  no_panic W ->
+  auth_recv key cipher open dec k (map EvBlock (all_sent W)) = (st1, am, conn1) ->
+  run_reads key cipher open k st1 conn1 caps = (rs, st2, conn2) ->
+  am = dec (enc m) /\
+  (exists j : nat,
+     (j <= length (all_sent W))%nat /\
+     r_nonce st1 = nonce_of P0 (N.of_nat j) /\ conn1 = map EvBlock (skipn j (all_sent W))) /\
+  (exists rest : list N, stream = concat (map rres_data rs) ++ rest) /\
+  Forall (fun r : rres => rres_ok r = true \/ r = RErrIO) rs /\
+  (In RErrIO rs -> concat (map rres_data rs) = stream).
+Proof. exact handshake_frame_may_carry_data. Qed.
+Print Assumptions C16_handshake_frame_may_carry_data.
+
+(* the hand-rolled peer's case made explicit: ONE Write of message ++ extra that fits a frame.
+   The reader leaves the handshake with exactly [extra] - the rest of that frame - in recvBuffer,
+   counter 1, and the conn where the frame ended; the next Read serves [extra] from the buffer *)
+Theorem C16_handshake_frame_keeps_rest :
+  forall (key cipher : Type) (seal : key -> bytes -> bytes -> cipher)
+         (open : key -> bytes -> cipher -> option bytes) (pool : bytes -> bytes)
+         (enc : authmsg -> bytes) (dec : bytes -> option authmsg) (k : key),
+  (forall n p : bytes, open k n (seal k n p) = Some p) ->
+  forall (m : authmsg) (extra : bytes) (tail : list (conn_ev cipher)),
+  (length (auth_wire_bytes enc m ++ extra) <= data_max_size)%nat ->
+  N.of_nat (length (enc m)) <= max_msg_size ->
+  let w := write key cipher seal pool k zero_nonce (auth_wire_bytes enc m ++ extra) in
+  w_panic w = false /\
+  length (w_sent w) = 1%nat /\
+  w_nonce w = nonce_of P0 1 /\
+  auth_recv key cipher open dec k (map EvBlock (w_sent w) ++ tail) =
+  ({| r_buf := extra; r_nonce := nonce_of P0 1 |}, dec (enc m), tail).
+Proof. exact frame_keeps_rest. Qed.
+Print Assumptions C16_handshake_frame_keeps_rest.
+
+(* message ++ "A" in one frame, then a second Write: the reader keeps "A" in recvBuffer and the
+   Reads return "A", then the second Write; and the message split after its first 3 bytes with
+   data behind it in the second frame *)
+Example C16_handshake_frame_may_carry_data_nonvacuous :
+  (let W := run_writes bytes tb_cipher tb_seal t_pool [42] zero_nonce
+              [auth_wire_bytes tb_enc tb_small ++ [65]; [7; 7; 7]] in
+   match auth_recv bytes tb_cipher tb_open tb_dec [42] (map EvBlock (all_sent W)) with
+   | (st1, am, conn1) =>
+     am = Some tb_small /\ st1 = {| r_buf := [65]; r_nonce := nonce_of P0 1 |} /\
+     length conn1 = 1%nat /\
+     fst (fst (run_reads bytes tb_cipher tb_open [42] st1 conn1 [9; 9; 9]%nat))
+       = [ROk [65]; ROk [7; 7; 7]; RErrIO]
+   end) /\
+  (let W := run_writes bytes tb_cipher tb_seal t_pool [42] zero_nonce
+              [firstn 3 (auth_wire_bytes tb_enc tb_small);
+               skipn 3 (auth_wire_bytes tb_enc tb_small) ++ [65; 66]; [7]] in
+   match auth_recv bytes tb_cipher tb_open tb_dec [42] (map EvBlock (all_sent W)) with
+   | (st1, am, conn1) =>
+     am = Some tb_small /\ st1 = {| r_buf := [65; 66]; r_nonce := nonce_of P0 2 |} /\
+     fst (fst (run_reads bytes tb_cipher tb_open [42] st1 conn1 [1; 9; 9; 9]%nat))
+       = [ROk [65]; ROk [66]; ROk [7]; RErrIO]
+   end).
+Proof. vm_compute. repeat split; reflexivity. Qed.
